@@ -988,6 +988,7 @@ FUNC_PROFILE = dict(p_impl=0.9, impl_fns=(1, 4), args=(0, 6), p_cc=0.45, p_ret=0
                     types=(1, 4), p_addr=0.2, p_gap=0.1)
 
 PROPS["C05"] = dict(
+    exec_oracle=True,
     profile=FUNC_PROFILE, n=(400, 6000), corpus=["common", "C05"],
     aspects=["verdict", "methods", "fn_sig", "body_addr", "items"],
     monitors=[mon_c05],
@@ -1001,7 +1002,7 @@ PROPS["C05"] = dict(
                "the impl loop keeps every function in order. On the emitted text (EmitFn*.v, readers proved to invert the printers): C05_wrapper_shape/_address (the printed function item, read back from its tokens, has the record's name, visibility, parameters, return type and a body that transmutes exactly address A to an extern \"cc\" fn pointer and calls it, receiver first, arguments in order) and C05_emitted_impl_function (in every accepted collision-free build each declared impl function has that wrapper, with the declared address and cc_spec, in the inherent impl of its type in the module's file). The printed wrapper is also compared token for token "
                "(signature, fn-pointer type, address by value, call arguments) with the real output, and the monitor re-derives address, argument order "
                "and single-call shape from the implementation's file against the description.",
-    level_note="Trusted: Coq kernel; model validated by this run's correspondence; the meaning of the emitted body shape "
+    level_note="Run-time behaviour of the emitted code is checked by the execution oracle on a sample per run (tools/exec_oracle.py: the emitted crate compiled with a generated driver and run on the host; address-bound wrappers (with and without receiver); trusted: SysV ABI, ABI strings normalised to C). Trusted: Coq kernel; model validated by this run's correspondence; the meaning of the emitted body shape "
                "(one call through a transmuted fn pointer) is RustExec.v's definition (spec side, by inspection of a 3-line template), not rustc's.",
 )
 PROPS["C16"] = dict(
@@ -1063,6 +1064,7 @@ INHERIT_PROFILE = dict(FUNC_PROFILE, miss=0.1, p_slot_mut=0.35, p_base=0.75, p_v
                        fields=(0, 2), p_index=0.3, modules=(1, 2))
 
 PROPS["C04"] = dict(
+    exec_oracle=True,
     profile=dict(FUNC_PROFILE, p_vftable=0.85, vfuncs=(0, 8), p_index=0.45, p_base=0.4, p_impl=0.2), n=(400, 6000), corpus=["common", "C04"],
     aspects=["verdict", "fields", "field_types", "accessor", "body_vftable", "fn_sig", "methods", "items"],
     monitors=[mon_c04],
@@ -1077,10 +1079,11 @@ PROPS["C04"] = dict(
                "first and arguments in order. On the emitted text (EmitFn*.v): C04_emitted_vftable_struct -- for every type of an accepted build with a vftable block the module's file contains the struct <T>Vftable, repr(C, align(ptr)), one fn-pointer field per slot of the resolved table in slot order with the slot function's ABI, parameter and return types; a virtual function's wrapper is the template (self.vftable().<name>)(receiver, args..) (C05_wrapper_shape). C04_emitted_declared_slot (EmitVftLayout.v): a virtual function declared #[index(i)] is the fn-pointer field at byte offset i*ptr of the emitted struct, computed by the Reference algorithm from the emitted item. Correspondence compares vftable struct fields/types, accessor and wrapper bodies; the monitor re-derives slots, placeholder shape, "
                "slot byte offsets (independent layout calculator) and wrapper call shape from the implementation's files against the description. C04_whole_build: end to end, the <T>Vftable item "
                "of the FINAL registry of every accepted collision_free build is the struct built from exactly the converted slot list, final from the moment its owner is resolved.",
-    level_note="Trusted: Coq kernel; model validated by this run's correspondence; RustExec.v is the meaning given to the three-line wrapper template (spec side, not rustc); "
+    level_note="Run-time behaviour of the emitted code is checked by the execution oracle on a sample per run (tools/exec_oracle.py: the emitted crate compiled with a generated driver and run on the host; virtual-call wrappers (own, inherited, displaced); trusted: SysV ABI, ABI strings normalised to C). Trusted: Coq kernel; model validated by this run's correspondence; RustExec.v is the meaning given to the three-line wrapper template (spec side, not rustc); "
                "slot lookup by name assumes distinct function names in one table (duplicates are a C13 matter).",
 )
 PROPS["C06"] = dict(
+    exec_oracle=True,
     profile=INHERIT_PROFILE, n=(400, 6000), corpus=["common", "C06"],
     aspects=["verdict", "fields", "field_types", "accessor", "items"],
     monitors=[mon_c06],
@@ -1093,9 +1096,10 @@ PROPS["C06"] = dict(
                "functions position by position (record equality: name, receiver/parameters, return type, convention, also visibility and doc), any differing slot rejects, the accessor goes through the base field and "
                "(RustExec) yields the base sub-object's accessor value; without such a base an own block puts the single pointer-sized private `vftable` field first, at offset 0, before all declared fields. "
                "Correspondence compares struct fields, accessor bodies and verdicts; the monitor recomputes prefix and pointer placement from the emitted files.",
-    level_note="Trusted: Coq kernel; model validated by this run's correspondence; RustExec.v for the accessor's value.",
+    level_note="Run-time behaviour of the emitted code is checked by the execution oracle on a sample per run (tools/exec_oracle.py: the emitted crate compiled with a generated driver and run on the host; vftable() accessors; trusted: SysV ABI, ABI strings normalised to C). Trusted: Coq kernel; model validated by this run's correspondence; RustExec.v for the accessor's value.",
 )
 PROPS["C07"] = dict(
+    exec_oracle=True,
     profile=INHERIT_PROFILE, n=(400, 6000), corpus=["common", "C07"],
     aspects=["verdict", "methods", "body_field", "fn_sig", "asref", "asref_conflict", "items"],
     monitors=[mon_c07],
@@ -1106,10 +1110,11 @@ PROPS["C07"] = dict(
     level_text="Proved in Coq (Properties/C07.v): inject_bases appends, per resolved base in region order, one forwarding function per public associated function (and per public virtual function for "
                "bases after the first), copying signature/visibility/doc/convention, with body 'call g on field b'; named g when unused, else <field>_<g>; RustExec: calling it = calling g on the object at self+offset(b), "
                "that offset being the prefix-sum offset of b. Receiver-less forwarded functions are known finding F10. AsRef/AsMut conversions (HierSpec.v, Conv*.v): the hierarchy is specified independently of the emitter (bases_of) and equals the emitter's walk for any sufficient fuel; read back from the emitted tokens, the conversion items are exactly one AsRef and one AsMut impl per sub-object whose type occurs once, borrowing self.<field path>, no impl but a _CONFLICTING_ const for a type that occurs more than once, the reflexive pair and nothing else (C07_asref_read/_unique_base/_repeated_base/_nothing_else); the borrowed place is at the sum of the prefix-sum offsets of the nested base fields (C07_asref_offset, under sized regions and distinct field names); C07_asref_whole_build: for every type of an accepted build in its module's file. Correspondence (asref aspects) and the monitor check the same on the real output.",
-    level_note="Trusted: Coq kernel; model validated by this run's correspondence; RustExec.v for method calls; the AsRef/AsMut clause is decided by correspondence + monitor only (partial).",
+    level_note="Run-time behaviour of the emitted code is checked by the execution oracle on a sample per run (tools/exec_oracle.py: the emitted crate compiled with a generated driver and run on the host; forwarders (impl and virtual) and AsRef/AsMut; trusted: SysV ABI, ABI strings normalised to C). Trusted: Coq kernel; model validated by this run's correspondence; RustExec.v for method calls; the AsRef/AsMut clause is decided by correspondence + monitor only (partial).",
     kf_filter=lambda case: False,
 )
 PROPS["C15"] = dict(
+    exec_oracle=True,
     profile=dict(p_singleton=0.6, extern_values=(1, 4), enums=(1, 3), types=(1, 3), externs=(0, 2), p_vftable=0.1, p_impl=0.1, p_base=0.1,
                  p_backend=0.0, fields=(0, 3)),
     n=(400, 6000), corpus=["common", "C15"],
@@ -1122,7 +1127,7 @@ PROPS["C15"] = dict(
     level_text="Proved in Coq (Properties/C15.v): an extern value is registered only with an address attribute (last wins, negative rejected), keeps name/visibility/address, and ends with its declared type "
                "resolved or the build fails; without an address it is rejected. RustExec defines the accessors' values (struct get: word at A, None when null; enum get: value at A; get_x: reference to A). On the emitted text (EmitFn*.v): the printed get accessors read back exactly the address they were given (C15_emitted_singleton, C15_emitted_enum_singleton) and every extern value has, in its module's file, a get_<name> with its visibility casting exactly its address to &'static mut <declared type> (C15_emitted_extern_value). "
                "Correspondence compares the emitted accessor items token for token (address by value); the monitor checks signature, address and cast type against the description.",
-    level_note="Trusted: Coq kernel; model validated by this run's correspondence; RustExec.v definitions for what the accessor bodies compute.",
+    level_note="Run-time behaviour of the emitted code is checked by the execution oracle on a sample per run (tools/exec_oracle.py: the emitted crate compiled with a generated driver and run on the host; singleton, enum-singleton and extern accessors; trusted: SysV ABI, ABI strings normalised to C). Trusted: Coq kernel; model validated by this run's correspondence; RustExec.v definitions for what the accessor bodies compute.",
 )
 
 PROPS["C17"] = dict(
@@ -1581,4 +1586,12 @@ def run_property(pid, prop, tier, seed, scratch, replay=None):
         out["failures"].extend(fails)
         out["oracle"] = counts
         out["evaluations"] += sum(counts.values())
+    if prop.get("exec_oracle") and not replay:
+        # the emitted crate, compiled with a generated driver and RUN on the host: what the wrappers and accessors do
+        import exec_oracle
+        fails, counts = exec_oracle.exec_stage(pid, tier, seed, scratch)
+        out["failures"].extend(fails)
+        out.setdefault("oracle", {}).update(counts)
+        out["evaluations"] += sum(v for k, v in counts.items() if k in ("exec:all_ok", "exec:FAIL", "exec:fail_for_another_property")
+                                  or k.startswith("exec:unusable"))
     return out
